@@ -24,3 +24,10 @@ def flat_refs(xss: "seq[seq[ref]]", n: "int") -> "seq[ref]":
     if n <= 0:
         return []
     return flat_refs(xss, n - 1) + xss[n - 1]
+
+
+def py_sum(s: "seq[int]", k: "int") -> "int":
+    """sum(s[0:k])"""
+    if k <= 0:
+        return 0
+    return py_sum(s, k - 1) + s[k - 1]
